@@ -76,8 +76,6 @@ func VH_C09_Rebuild() {
 			allReady = false
 		}
 	}
-	verifrt.KF("C09_REBUILD_ALLREADY", allReady)
-
 	g.quiet = true
 	a := &vhSide{m: g.m}
 	firedA0 := g.fired
@@ -89,6 +87,12 @@ func VH_C09_Rebuild() {
 	b.m.rg.ModelSetStepped(true)
 	verifrt.Assert(b.fired == 0, "rebuilding does not fire the callback by itself")
 	verifrt.Assert(vhSameGateState(a.m.GetState(), b.m.GetState(), P), "rebuilt gate reports the saved state")
+	// goroutines the rebuild may have started run before anything else happens; the two clauses
+	// above and this one hold in every saved state — the known finding is about what a *later
+	// signal* does to a gate rebuilt from an all-ready state, so its region starts only here
+	verifrt.RunPending()
+	verifrt.Assert(b.fired == 0, "rebuilding does not fire the callback by itself (goroutines started by the rebuild included)")
+	verifrt.KF("C09_REBUILD_ALLREADY", allReady)
 
 	for s := 0; s < k2; s++ {
 		fa, fb := g.fired, b.fired
